@@ -218,6 +218,14 @@ class Gen(object):
                 r['valuesrules'] = self.rules(depth - 1, validation_only=validation_only, no_rename=True)
             if self.chance(0.5):
                 r['keysrules'] = self.keys_rules(validation_only)
+            if self.chance(0.15):
+                # the rules for unknown fields / purging beside keysrules / valuesrules, without a `schema` rule
+                r['allow_unknown'] = self.allow_unknown(depth - 1, validation_only)
+        elif depth > 0 and x < 0.9:
+            # a mapping without a `schema` rule whose fields are all unknown: only allow_unknown / purge_unknown
+            r['allow_unknown'] = self.allow_unknown(depth - 1, validation_only)
+            if not validation_only and self.chance(self.p_norm * 0.5):
+                r['purge_unknown'] = self.chance(0.7)
         if self.chance(0.2):
             r['minlength'] = self.r.randint(0, 2)
         if self.chance(0.2):
@@ -474,8 +482,14 @@ class Gen(object):
             if isinstance(rules.get('schema'), dict):
                 return self.document(rules['schema'], depth - 1, unknown=rules.get('allow_unknown'))
             d = {}
+            au = rules.get('allow_unknown')
             for k in self.some(SUBKEYS, 0, 3):
-                d[k] = self.value_for(rules.get('valuesrules'), depth - 1) if 'valuesrules' in rules else self.anyval(1)
+                if 'valuesrules' in rules:
+                    d[k] = self.value_for(rules.get('valuesrules'), depth - 1)
+                elif isinstance(au, dict) and au and self.chance(0.8):
+                    d[k] = self.value_for(au, depth - 1)
+                else:
+                    d[k] = self.anyval(1)
             kr = rules.get('keysrules')
             if isinstance(kr, dict) and ('coerce' in kr or 'rename_handler' in kr) and self.chance(0.4):
                 # keys that a key coercer maps onto one another
